@@ -65,6 +65,9 @@ cfg("C06x_quick", 1, 1, 1, 1, C06X, 8, names=("a",), vals=(1,))
 cfg("C06x_thorough", 2, 1, 2, 1, C06X + ["Close", "Open"], 6, names=("a",), vals=(1,))
 # --- C09: every single mutation applied to every reachable state; footprint; files with omitted optional attributes
 cfg("C09_quick", 1, 1, 1, 1, [a for a in BASE if a != "LookupDead"] + ["MoveSame", "StripOpt"], 6, names=("a", "b"), vals=(1, 2))
+# bystanders: several data sets (shared types), visual parameters, shallow copies, metadata
+cfg("C09by_quick", 0, 2, 2, 1, ["CreateObject", "AddData", "AddVisual", "Copy", "SetVal", "SetMeta", "Rename", "AddToGroup",
+                                "RemoveViaWorkspace", "Close", "Open"], 5, names=("a",), vals=(1, 2))
 cfg("C09_thorough", 2, 1, 2, 2, BASE + ["MoveSame", "StripOpt", "AddDataFails", "SetMeta", "AddVisual"], 6, names=("a", "b"), vals=(1, 2))
 # --- C11: close / abort at every point (also after a failed operation), calls on a closed workspace, re-open,
 #          save_as, fetch_active_workspace re-opening in another mode
